@@ -101,6 +101,10 @@ def check_value(bib, e, sp, inplace):
                 try:
                     if x["kept"]:
                         src = mw_remove(bib, inplace).transform(mk_lib(bib, key, text, as_string))
+                        if not inplace:
+                            # a branch of the history: a copy-mode removal applied to src and thrown away is no
+                            # event in src's history (its record stays that of ITS removal)
+                            mw_remove(bib, False).transform(src)
                     else:
                         src = mk_lib(bib, key, text, as_string)
                     got = val_of(mw_add(bib, o, inplace).transform(src), key, as_string)
@@ -115,6 +119,45 @@ def check_value(bib, e, sp, inplace):
                     clause = "restore" if (x["kept"] and x["reuse"]) else ("integer_rule" if v in (["D"], ["I"]) else "enclose")
                     out.append((clause, {"value": text, "string": as_string, "key": key, "opts": o, "kept": x["kept"],
                                          "observed": got, "expected": want}))
+    # --- histories on one block: remove, remove, add(reuse): the record is the one of the LAST removal ---
+    if v != ["I"]:
+        for as_string in forms:
+            key = "-" if as_string else "year"
+            for x in e["rra"]:
+                if as_string and x["num"]:
+                    continue
+                if (not as_string) and not x["num"]:
+                    continue
+                o = {"reuse": x["reuse"], "encInts": x["encInts"], "def": x["def"]}
+                try:
+                    lib = mk_lib(bib, key, text, as_string)
+                    lib = mw_remove(bib, True).transform(lib)
+                    lib = mw_remove(bib, inplace).transform(lib)
+                    got = val_of(mw_add(bib, o, inplace).transform(lib), key, as_string)
+                except Exception as ex:  # noqa
+                    out.append(("enclose_raised", {"value": text, "string": as_string, "key": key, "opts": o, "history": "remove, remove, add",
+                                                  "exc": f"{type(ex).__name__}: {ex}"}))
+                    continue
+                want = conc(x["r"], sp)
+                if not same(got, want) and not (v[-1:] == ["ESC"] and sp["ESC"][-1] in '}"'):
+                    out.append(("restore", {"value": text, "string": as_string, "key": key, "opts": o, "history": "remove, remove, add",
+                                            "observed": got, "expected": want}))
+    # --- the numeric-field list: year month volume number pages edition chapter issue, and nothing else ---
+    if v in (["D"], ["I"]):
+        for key in ("year", "month", "volume", "number", "pages", "edition", "chapter", "issue", "title", "editionissue", "Year", "issn"):
+            numeric = key in ("year", "month", "volume", "number", "pages", "edition", "chapter", "issue")
+            for x in e["enc"]:
+                if x["kept"] or x["num"] != numeric:
+                    continue
+                o = {"reuse": x["reuse"], "encInts": x["encInts"], "def": x["def"]}
+                try:
+                    got = val_of(mw_add(bib, o, inplace).transform(mk_lib(bib, key, text, False)), key, False)
+                except Exception as ex:  # noqa
+                    out.append(("enclose_raised", {"value": text, "key": key, "opts": o, "exc": f"{type(ex).__name__}: {ex}"}))
+                    continue
+                want = conc(x["r"], sp, of_int=(v == ["I"]))
+                if not same(got, want):
+                    out.append(("integer_rule", {"value": text, "string": False, "key": key, "opts": o, "kept": False, "observed": got, "expected": want}))
     # --- re-parse law through the real writer and parser ---
     for dflt, flag in (("{", "rb"), ('"', "rq")):
         if not e[flag] or v == ["I"]:
